@@ -315,7 +315,11 @@ def _run(ctx, base):
             if r.random() < 0.4 and "gen-valid" not in targets:
                 targets = list(targets) + ["gen-valid"]  # (a valid file adds no problem: the counts above stay what they are)
             for k2, t in enumerate(targets):
-                fn = os.path.join(wd, f"v{j}_{k2}.map")
+                # file names are data: characters that mean something to a formatting template, a shell or a URL are ordinary
+                stem = ("v{j}_{k}", "v{j}_{k}", "roads{{v2}}_{j}_{k}", "tile_{{0}}_{j}_{k}", "half{{open_{j}_{k}", "set}}_{j}_{k}", "100%_{j}_{k}",
+                        "%s %d_{j}_{k}", "a b_{j}_{k}", "{{line}}_{j}_{k}", "$HOME_{j}_{k}", "it's_{j}_{k}", "a#b=c,d+e_{j}_{k}")[(j + k2) % 13]
+                fn = os.path.join(wd, stem.format(j=j, k=k2) + ".map")
+                res.seen("cli-validate-file-name-shapes", stem)
                 if t == "bad-latin1":
                     with open(fn, "wb") as f:
                         f.write('MAP\n  NAME "caf\xe9"\nEND\n'.encode("latin-1"))
